@@ -508,6 +508,27 @@ def set_steps(path, steps):
         tomli_w.dump(cfg, fh)
 
 
+_ROOT_SERIAL = [0]
+
+
+def _fresh_root(base, seed):
+    """Create and return a run root that no live or left-over run of this process tree uses.
+
+    One case of C08 opens tens of thousands of run roots from one process and keeps a few alive at a
+    time, so the name is a per-process serial number (never a hash of the clock, which collides), and
+    an existing directory (left by a dead process whose pid was reused) is skipped, not an error.
+    """
+    os.makedirs(base, exist_ok=True)
+    while True:
+        _ROOT_SERIAL[0] += 1
+        root = os.path.join(base, f"run-{seed}-{os.getpid()}-{_ROOT_SERIAL[0]}")
+        try:
+            os.mkdir(root)
+            return root
+        except FileExistsError:
+            continue
+
+
 def run_case(case, monitor_factory, history_checks=None, keep_dir=False, scratch_base=None,
              prebuilt=None, first_inc=0, pre_install=None):
     """Execute the history described by case['scn']['plan'].
@@ -517,12 +538,11 @@ def run_case(case, monitor_factory, history_checks=None, keep_dir=False, scratch
     from sim.common import scratch_root, rm_tree
     scn = case["scn"]
     base = scratch_base or scratch_root()
-    root = os.path.join(base, f"run-{case['seed']}-{os.getpid()}-{hash64(_realtime.time_ns()) % 10**6}")
+    root = _fresh_root(base, case["seed"])
     rundir = os.path.join(root, "w")
     if prebuilt is None:
         os.makedirs(rundir)
     else:
-        os.makedirs(root)
         os.rename(prebuilt, rundir)
     res = {"violations": [], "events": [], "trace": [], "probes": {}, "faults": {},
            "stats": {}, "incs": [], "sim_time": 0.0, "ksteps": 0, "sigs": [], "mon": {}}
